@@ -12,7 +12,7 @@
    evm.Create from depth 0.
 
    Names other families rely on (keep stable):
-     iter_pow fuel_bound run_frame run max_depth_fuel prepare top_call top_create
+     iter_pow reachable fuel_bound run_frame run max_depth_fuel prepare top_call top_create
      tx_result
    No proofs in this file. *)
 From Coq Require Import List NArith Arith Bool.
@@ -30,6 +30,11 @@ Fixpoint iter_pow {S R : Type} (k : nat) (f : S -> S + R) (s : S) : S + R :=
       | inr r => inr r
       end
   end.
+
+(* the states a loop  s := f s  passes through, starting from s0 *)
+Inductive reachable {S R : Type} (f : S -> S + R) (s0 : S) : S -> Prop :=
+| reach_init : reachable f s0 s0
+| reach_next s s' : reachable f s0 s -> f s = inl s' -> reachable f s0 s'.
 
 (* the fuel exponent for a frame that starts with [gas]: 2^(fuel_bound gas) > gas + 1 *)
 Definition fuel_bound (gas : N) : nat := N.to_nat (N.size (gas + 1)).
